@@ -28,14 +28,21 @@ ScenD == {AtLevel(lv, <<L(k, a), L(k, b)>>) : lv \in Levels, k \in BoolKeys, a \
 
 \* X: the conflicting pair in both orders, at the same and at different levels
 One(lv, l) == [cli |-> IF lv = "cli" THEN <<l>> ELSE <<>>, conv |-> IF lv = "conv" THEN <<l>> ELSE <<>>, meth |-> IF lv = "meth" THEN <<l>> ELSE <<>>]
+\* the sibling is an *update* method (Sib(source S2, target *T2)): lines written on it
+OnSib(ls) == [kind |-> "V", cli |-> <<>>, conv |-> <<>>, meth |-> <<>>, sib |-> ls]
 Merge(x, y) == [kind |-> "X", cli |-> x.cli \o y.cli, conv |-> x.conv \o y.conv, meth |-> x.meth \o y.meth, sib |-> <<>>]
 ScenX == {Merge(One(l1, L("wrapErrors", v)), One(l2, L("wrapErrorsUsing", "v.test/b/wx"))) : l1 \in Levels, l2 \in Levels, v \in {"", "yes", "no"}}
            \cup {Merge(One(l2, L("wrapErrorsUsing", "v.test/b/wx")), One(l1, L("wrapErrors", v))) : l1 \in Levels, l2 \in Levels, v \in {"", "yes", "no"}}
 
 \* V: one line (level, key, value text) -- misplaced, unknown, missing or malformed values
-ValTexts == {"", "yes", "no", "maybe", "yes no", "X", "(", "@bogus", "@error", "X Y Z", ".", "A.B", "A | F", " yes", "yes ", "*"}
+ValTexts == {"", "yes", "no", "maybe", "yes no", "X", "(", "@bogus", "@error", "X Y Z", ".", "A.B", "A | F", " yes", "yes ", "*",
+             "Nick", "Inner", "PI", "Nick.X", "A | Fixed", "A A | ToA", "Inner.C A", "PI.C A", "NewT"}
 AllKeys == CommonKeys \cup ConvOnly \cup MethOnly \cup {"foo", "", "Map", "wraperrors", "goverter:map", "enum:", ":"}
+OwnLines == {L("map", "A | Fixed"), L("map", "B | Fixed"), L("map", "B A | ToA"), L("map", "A | ToA"), L("ignore", "A"), L("autoMap", "Nick"), L("default", "NewT2")}
 ScenV == {[kind |-> "V"] @@ One(lv, L(k, v)) @@ [sib |-> <<>>] : lv \in Levels, k \in AllKeys, v \in ValTexts}
+           \cup {OnSib(<<L(k, v)>>) : k \in MethOnly \cup CommonKeys, v \in ValTexts}
+           \cup {OnSib(<<L(k, ""), o>>) : k \in BoolKeys, o \in OwnLines}
+           \cup {[kind |-> "V", cli |-> <<>>, conv |-> <<>>, meth |-> <<L(k, ""), o>>, sib |-> <<>>] : k \in BoolKeys, o \in OwnLines}
 
 Scenarios == ScenP \cup ScenS \cup ScenD \cup ScenX \cup ScenV
 
